@@ -18,7 +18,7 @@ RULE = ('model-first generation: draw a logic, draw a total reference model M fo
         'predicates; classical: identity an equivalence respected by every extension), draw ~8 sentences of depth <= 3 '
         'from the fragment (uninterpreted sentences get drawn values; in a third of the cases four of them are instances of one drawn '
         'top-level form -- operator / quantifier / modal operator, plain or negated -- so that every (logic, form, side) cell is met by many '
-        'models per run; logic D, the only one with the Serial rule, gets a modal-heavy share of its own; in K, D, T, S4, S5 a quarter of the cases draw from the finite sub-domain of literals over two constants -- identity both ways round, a predication, negations -- under 0-2 modal operators), evaluate them in M with vf/refsem.py and form an '
+        'models per run; logic D, the only one with the Serial rule, gets a modal-heavy share of its own; in K, D, T, S4, S5 a third of the cases draw from the finite sub-domain of literals over two constants -- identity both ways round, in half of them also a predication, negations -- under 0-2 modal operators), evaluate them in M with vf/refsem.py and form an '
         'argument whose premises are designated at w0 and whose conclusion is not (second stream: a standard valid form '
         'weakened in one or two places, with a countermodel found among drawn models); x {group optim} x {rank optim} x '
         'tie-break order seed. Oracle: M is a countermodel by construction, so the tableau must not report valid; and, '
@@ -194,18 +194,20 @@ def run_shard(shard, acc):
                                max_depth=4, natoms=2)
         sents = [data.draw(gen.sentence(prof)) for _ in range(data.draw(st.integers(4, 8)))]
         modal_lit = (not serial_share and R.is_classical(logic) and R.is_modal(logic) and R.is_quantified(logic)
-                     and data.draw(st.integers(0, 3)) == 0)
+                     and data.draw(st.integers(0, 2)) == 0)
         if modal_lit:
             # finite sub-domain of the five classical modal logics: literals over two constants (identity both ways round,
             # a predication, negations) under 0-2 modal operators -- literals of *different* worlds meeting on one branch
             # is what the closure rules have to keep apart (extensions are per world)
             a, b = (M.consts[0], M.consts[1]) if len(M.consts) >= 2 else (M.consts[0], M.consts[0])
             lits = [A.pred('Identity', a, b), A.pred('Identity', b, a), A.pred((0, 0, 1), a), A.pred((0, 0, 1), b)]
+            if data.draw(st.booleans()):
+                lits = lits[:2]         # the two identities only: converse pairs meet often
             lits += [A.neg(x) for x in lits]
             sents = []
             for _ in range(6):
                 x = lits[data.draw(st.integers(0, len(lits) - 1))]
-                for _ in range(data.draw(st.integers(0, 2))):
+                for _ in range((0, 1, 1, 2)[data.draw(st.integers(0, 3))]):
                     x = A.op(A.MODAL_OPS[data.draw(st.integers(0, 1))], x)
                 sents.append(x)
         shaped = not modal_lit and data.draw(st.integers(0, 2)) == 0
